@@ -1,8 +1,8 @@
 package checks
 
 import (
-	"github.com/kstenerud/go-concise-encoding/ce/events"
 	compact_time "github.com/kstenerud/go-compact-time"
+	"github.com/kstenerud/go-concise-encoding/ce/events"
 	"verif/harness/internal/ev"
 	"verif/harness/internal/fx"
 	"verif/harness/internal/rulesmodel"
